@@ -216,10 +216,12 @@ def do_write_fields(frag, idx, elements, offset, nvals, v):
 
 
 for frag in (False, True):
-    define(globals(), 'C08', 'write_%s_inconsistent_fields' % ('frag' if frag else 'tag'), ['idx', 'elements', 'offset', 'nvals', 'v'],
-           "return do_write_fields(%r, idx, elements, offset, nvals, v)" % frag,
-           ['0 <= idx <= 5 and 0 <= elements <= 6 and 0 <= offset <= 5 and 0 <= nvals <= 6 and -100 <= v <= 100'], timeout=3000, path_timeout=300, drives=FULL,
-           symbolic=['idx: start element 0..5', 'elements: declared element count 0..6', 'offset: declared element offset 0..5', 'nvals: number of values actually carried 0..6', 'v'],
-           bounds='reference-encoded Write Tag%s to the INT[4] tag with EVERY combination of start index, declared count, declared offset and carried values: the tag '
-                  'changes only if the request is a complete well-formed write (then exactly the addressed elements), its length never changes, no other tag '
-                  'changes, next request served' % (' Fragmented' if frag else ''), outside='')
+    for _idx in range(6):
+        define(globals(), 'C08', 'write_%s_inconsistent_fields_at%d' % ('frag' if frag else 'tag', _idx), ['elements', 'offset', 'nvals', 'v'],
+               "return do_write_fields(%r, %d, elements, offset, nvals, v)" % (frag, _idx),
+               ['0 <= elements <= 5 and 0 <= offset <= %d and 0 <= nvals <= 4 and -100 <= v <= 100' % (3 if frag else 0)],
+               tier='quick' if (frag, _idx) in ((False, 1), (True, 0), (True, 2)) else 'thorough', timeout=3000, path_timeout=300, drives=FULL,
+               symbolic=['elements: declared element count 0..5', 'offset: declared element offset 0..3 (fragmented)', 'nvals: number of values actually carried 0..4', 'v'],
+               bounds='reference-encoded Write Tag%s to the INT[4] tag at start index %d with EVERY combination of declared count, declared offset and carried values: the tag '
+                      'changes only if the request is a complete well-formed write (then exactly the addressed elements), its length never changes, no other tag '
+                      'changes, next request served' % (' Fragmented' if frag else '', _idx), outside='')
